@@ -140,7 +140,7 @@ def main():
     files = sys.argv[4:] or sorted(f for f in FILE_PROPS if f not in ("ural/data.py", "ural/tld_data.py"))
     JOBS = max(2, 16 // workers)
     WORK = tempfile.mkdtemp(prefix="mutc_")
-    rnd = random.Random(20261003)
+    rnd = random.Random(int(os.environ.get("MUTC_SEED", "20261003")))
     try:
         for w in range(workers):
             d = os.path.join(WORK, "w%d" % w)
